@@ -27,11 +27,31 @@ mod c04;
 #[cfg(kani)]
 mod c05;
 #[cfg(kani)]
+pub mod ctl;
+#[cfg(kani)]
+pub mod ctlrun;
+#[cfg(kani)]
+mod c08;
+#[cfg(kani)]
+mod c09;
+#[cfg(kani)]
+mod c10;
+#[cfg(kani)]
+mod c11;
+#[cfg(kani)]
 mod c12;
 #[cfg(kani)]
 pub mod c13;
 #[cfg(kani)]
 mod c14;
+#[cfg(kani)]
+pub mod symio;
+#[cfg(kani)]
+mod c15;
+#[cfg(kani)]
+pub mod tapes;
+#[cfg(kani)]
+mod c16;
 #[cfg(kani)]
 mod c19;
 #[cfg(kani)]
